@@ -209,6 +209,39 @@ func runC04(r *Run) {
 				}
 			})
 			r.atLeast("addPrefixToRoute call sites at mount time", np, 1)
+			// … by the app the routes are spliced into: the patterns are normalised and parsed with the parent's
+			// CaseSensitive / StrictRouting / constraints, as a group registration under the parent would be
+			withHelpers(func() {
+				for i, c := range callsMatching(ps, false, nameHasSuffix("App).addPrefixToRoute")) {
+					r.check(len(ps.Params) > 0 && flowsUnchanged(c.Common.Args[0], ps.Params[0]), fmt.Sprintf("processSubAppsRoutes:addPrefixToRoute#%d:by-the-parent", i+1), r.pos(c.Instr), "addPrefixToRoute is called on the app whose stack receives the routes",
+						"the routes of a mounted sub-app are re-normalised by another app than the one they are spliced into: a strict or case-sensitive parent answers /api and /api/reports for a default sub-app's routes, unlike the equivalent group")
+				}
+			})
+			// the joiner itself: a prefix that ends in '/' must lose it before the path is appended
+			gp := r.Fn("", "getGroupPath")
+			var prefixParam ssa.Value
+			if len(gp.Params) == 2 {
+				prefixParam = gp.Params[0]
+			}
+			r.need(prefixParam != nil, "getGroupPath(prefix, path)")
+			nj, rawJoin := 0, ""
+			for _, b := range gp.Blocks {
+				for _, in := range b.Instrs {
+					bo, ok := in.(*ssa.BinOp)
+					if !ok || bo.Op != token.ADD {
+						continue
+					}
+					nj++
+					for _, leaf := range []ssa.Value{bo.X, bo.Y} {
+						if stripValue(leaf) == prefixParam {
+							rawJoin = r.pos(in)
+						}
+					}
+				}
+			}
+			r.atLeast("concatenations in getGroupPath", nj, 1)
+			r.check(rawJoin == "", "getGroupPath:prefix-trimmed-before-join", r.fpos(gp), "the prefix enters a concatenation only after its trailing slashes were cut",
+				"getGroupPath appends to the prefix as written ("+rawJoin+"): Group(\"/api/\").Get(\"users\") registers /api//users and a guard mounted with Use(\"admin\") no longer covers /api/admin")
 		})
 	})
 
